@@ -366,14 +366,25 @@ Proof.
   destruct (exec_acts E acts s) as [s1 r1]. cbn in H1. injection H as <- _. exact H1.
 Qed.
 
+(* the link flag is no part of the invariants; a refused take_off changes nothing *)
+Lemma exec_op2_inv E defh o s s' r :
+  0 < e_period E -> I2 (e_period E) s -> exec_op2 E defh o s = (s', r) -> I2 (e_period E) s'.
+Proof.
+  intros Hper HI H. destruct o; cbn [exec_op2] in H; try (eapply exec_op_inv; eauto; fail).
+  - destruct (negb (flying s) && negb (conn s)).
+    + injection H as <- _. exact HI.
+    + eapply exec_op_inv; eauto.
+  - injection H as <- _. exact HI.
+Qed.
+
 Lemma exec_body_inv E defh ops : 0 < e_period E -> forall s s' r,
   I2 (e_period E) s -> exec_body E defh ops s = (s', r) -> I2 (e_period E) s'.
 Proof.
   intros Hper. induction ops as [|o ops IH]; intros s s' r HI H; cbn in H.
   - injection H as <- _. exact HI.
-  - destruct (exec_op E defh o s) as [s1 [e|]] eqn:Ho.
-    + injection H as <- _. eapply exec_op_inv; eauto.
-    + eapply IH; [|exact H]. eapply exec_op_inv; eauto.
+  - destruct (exec_op2 E defh o s) as [s1 [e|]] eqn:Ho.
+    + injection H as <- _. eapply exec_op2_inv; eauto.
+    + eapply IH; [|exact H]. eapply exec_op2_inv; eauto.
 Qed.
 
 Lemma takeoff_inv E defh h v s s' r :
